@@ -6,6 +6,7 @@ import warnings
 
 import numpy
 import shapely
+import xarray
 
 import emsarray
 from harness import datasets
@@ -149,6 +150,12 @@ def check_topology(run, ds, out):
             if 'face_edge_connectivity' in attrs or True:
                 if [en[e] for e in fe[f]] != pairs and sorted(map(sorted, (en[e] for e in fe[f]))) != sorted(map(sorted, pairs)):
                     return f'face {f}: face_edge / edge_node of the clipped mesh disagree with face_node'
+        sides = {frozenset(p) for nodes in faces1 for p in zip(nodes, nodes[1:] + nodes[:1])}
+        orphans = [e for e, pair in enumerate(en) if pair not in sides]
+        if orphans:
+            return f'edge(s) {orphans[:4]} of the clipped mesh are not a side of any surviving face (edge_node disagrees with face_node)'
+        if len(en) != len(sides):
+            return f'the clipped mesh has {len(en)} edges but its faces have {len(sides)} distinct sides'
     return None
 
 
@@ -156,11 +163,17 @@ def check_topology(run, ds, out):
 def gen_select(tier, seed):
     for spec in clip.SPECS:
         yield {'spec': spec}
+    # SHOC datasets without a time coordinate whose data nevertheless has a dimension with the name the convention expects for it
+    yield {'spec': {'conv': 'shoc_standard', 'ny': 2, 'nx': 3, 'time': 0}, 'time_dimension_only': 't'}
+    yield {'spec': {'conv': 'shoc_simple', 'ny': 2, 'nx': 3, 'time': 0}, 'time_dimension_only': 'time'}
 
 
 def test_select(inp):
     warnings.simplefilter('ignore')
     ds = clip.enrich(datasets.build(inp['spec']))
+    if inp.get('time_dimension_only'):
+        face = [d for d in ds['botz' if 'botz' in ds else 'count'].dims]
+        ds['steps'] = xarray.DataArray(numpy.zeros((2,) + tuple(ds.sizes[d] for d in face)), dims=[inp['time_dimension_only']] + face)
     ems = ds.ems
     geometry = set(map(str, ems.get_all_geometry_names()))
     names = [str(n) for n in ds.data_vars if str(n) not in geometry]
